@@ -134,6 +134,19 @@ CATALOGUE = [
      "    return ezodf.opendoc(input_file_path)\n",
      "    result: Any = ezodf.opendoc(input_file_path)\n    if len(result.sheets) > 3:\n        import os  # pylint: disable=import-outside-toplevel\n\n        os.utime(input_file_path)\n    return result\n",
      "input spreadsheet's mtime refreshed for spreadsheets with more than three sheets"),
+    # the next three reach the kernel through ctypes/libc: no CPython audit event exists for them, only the system-call monitor sees them
+    ("m18-libc-stamp-file", "C18", R + "rp2_main.py",
+     "        LOGGER.exception(\"Fatal exception occurred:\")\n        sys.exit(1)\n",
+     "        LOGGER.exception(\"Fatal exception occurred:\")\n        import ctypes  # pylint: disable=import-outside-toplevel\n\n        libc = ctypes.CDLL(None)\n        fd = libc.open(b\"/var/tmp/.rp2sim_mutant_stamp\", 0o101, 0o644)\n        if fd >= 0:\n            libc.write(fd, b\"x\", 1)\n            libc.close(fd)\n        sys.exit(1)\n",
+     "stamp file written outside the simulated world through libc (ctypes) from the top-level handler"),
+    ("m18-libc-system", "C18", R + "plugin/report/open_positions.py",
+     "        output_file.save()\n        LOGGER.info(\"Plugin '%s' output: %s\", __name__, Path(output_file.docname).resolve())\n",
+     "        output_file.save()\n        LOGGER.info(\"Plugin '%s' output: %s\", __name__, Path(output_file.docname).resolve())\n        import ctypes  # pylint: disable=import-outside-toplevel\n\n        ctypes.CDLL(None).system(b\"true\")\n",
+     "shell command run through libc system() after the open-positions report is saved"),
+    ("m18-libc-getaddrinfo", "C18", R + "rp2_main.py",
+     "        LOGGER.exception(\"Fatal exception occurred:\")\n        sys.exit(1)\n",
+     "        LOGGER.exception(\"Fatal exception occurred:\")\n        import ctypes  # pylint: disable=import-outside-toplevel\n\n        res = ctypes.c_void_p()\n        ctypes.CDLL(None).getaddrinfo(b\"telemetry.example.com\", b\"443\", None, ctypes.byref(res))\n        sys.exit(1)\n",
+     "host name resolved through libc getaddrinfo() from the top-level handler"),
 ]
 CONTROL = {"m16-midyear-window"}
 
